@@ -10,6 +10,14 @@ ASSUMPTIONS = ["Python big-integer arithmetic and bin() are correct",
                "helper inputs are kept inside each helper's documented domain (0 <= v < 2^bits)"]
 
 
+MANIFEST_ENTRY = {
+    "text": "Every bit helper (and its re-export in the wasm runtime) evaluated on all values x all rotation counts for "
+            "widths 1..12 and on boundary/random 16/32/64-bit values, compared with one-line mathematical definitions.",
+    "note": "Inputs stay inside each helper's documented domain; Python big-integer arithmetic is the trusted base.",
+    "technique": "runtime monitoring: exhaustive small-width + boundary sweep of the real helpers against definitional oracles",
+}
+
+
 def EXHAUSTIVE(tier):
     return True
 
